@@ -1027,7 +1027,7 @@ func (w *wbuild) checkBuild(res *InvResult, req BuildReq, opts InvOpts, cm *cach
 		checkFails := false
 		for _, ck := range sp.Checks {
 			want := ck.Expect
-			if (want != "" && ext0[ck.Key] != want) || (want == "" && ext0[ck.Key] == "") {
+			if (want != "" && ext0[ck.Key] != want) || ext0[ck.Key] == "" || ext0[ck.Key+"#rc"] == "fail" {
 				checkFails = true
 			}
 		}
